@@ -114,7 +114,14 @@ func (c *Client) Expect(who string, want []string, sigPrefix string) *core.Viola
 			return core.V(sigPrefix+"|not-one-package", "%s: message %d is not exactly one JSON package: %v: %.200q", who, i+1, err, fr.Data)
 		}
 		if got := Proj(pk); got != w {
-			return core.V(sigPrefix+"|wrong|want="+kindOf(w)+"|got="+kindOf(got), "%s: message %d of %d: got %q, want %q", who, i+1, len(want), got, w)
+			time.Sleep(2 * time.Millisecond)
+			var next []string
+			for _, f := range c.Pending() {
+				if p, err := Decode(f); err == nil {
+					next = append(next, Proj(p))
+				}
+			}
+			return core.V(sigPrefix+"|wrong|want="+kindOf(w)+"|got="+kindOf(got), "%s: message %d of %d: got %q, want %q (expected sequence %v; already queued behind it: %v)", who, i+1, len(want), got, w, want, next)
 		}
 	}
 	return nil
